@@ -35,7 +35,7 @@ def run(ctx):
     # multi-MB items followed at once by more traffic (socket buffers fill, partial reads / writes happen)
     jobs += [(k, "thread", None, ctx.seed + 1, True, {}) for k in (kinds if not ctx.quick else ["popen", "socket", "via"])]
     # the stand-alone server script, second connection (the first one changed the directory and left)
-    jobs += [("socket_standalone_second", "thread", None, ctx.seed, False, {})]
+    jobs += [("socket_standalone_second", "thread", None, ctx.seed, False, {}), ("socket_installvia_second", "thread", None, ctx.seed, False, {})]
     # a socket server hosted by a gevent gateway (cooperative reads and writes on the worker's side), small and multi-MB items
     try:
         import gevent  # noqa: F401
